@@ -122,6 +122,43 @@ func buildAllReps(g *oracle.G) map[string]graph.Graph {
 	} else {
 		sparseCopiedGrown, denseCopiedGrown = sparseOf(g), denseOf(g)
 	}
+	// a longer edit history ending in g: g without its last vertex, plus a junk vertex in the middle that is adjacent to
+	// every second vertex and to the (then) last one; the junk vertex is removed (a RemoveVertex of a middle vertex
+	// adjacent to the last vertex), then the last vertex of g is added with its neighbours
+	var sparseHistory, denseHistory graph.Graph
+	if g.N >= 2 {
+		last := g.N - 1
+		nbLast := g.Nbrs(last)
+		less := g.Copy()
+		less.RemoveVertex(last)
+		pos := less.N / 2
+		withJunk := oracle.New(less.N + 1)
+		for _, e := range less.Edges() {
+			a, b := e[0], e[1]
+			if a >= pos {
+				a++
+			}
+			if b >= pos {
+				b++
+			}
+			withJunk.Add(a, b)
+		}
+		for v := 0; v < withJunk.N; v++ {
+			if v != pos && (v%2 == 0 || v == withJunk.N-1) {
+				withJunk.Add(pos, v)
+			}
+		}
+		sh := sparseOf(withJunk)
+		sh.RemoveVertex(pos)
+		sh.AddVertex(append([]int{}, nbLast...))
+		sparseHistory = sh
+		dh := denseOf(withJunk)
+		dh.RemoveVertex(pos)
+		dh.AddVertex(append([]int{}, nbLast...))
+		denseHistory = dh
+	} else {
+		sparseHistory, denseHistory = sparseOf(g), denseOf(g)
+	}
 	// a small view of a much larger host: every vertex of g gets 9 private pendant vertices plus 8n+8 common
 	// neighbours, original vertex i sits at host label 3i+1 so that host neighbour lists interleave members and
 	// non-members of the view
@@ -145,6 +182,8 @@ func buildAllReps(g *oracle.G) map[string]graph.Graph {
 		}
 	}
 	return map[string]graph.Graph{
+		"sparse-history":      sparseHistory,
+		"dense-history":       denseHistory,
 		"user-defined":        userGraph{g.Copy()},
 		"dense-value":         *denseOf(g),
 		"sparse-copied-grown": sparseCopiedGrown,
@@ -206,7 +245,7 @@ func repOf(g *oracle.G, name string) graph.Graph {
 	return buildAllReps(g)[name]
 }
 
-var repNames = []string{"dense", "sparse", "cocomp", "comp-dense", "induced", "dense-bytes", "induced-reversed", "induced-nested", "sparse-edited", "dense-edited", "induced-bighost", "sparse-copied-grown", "dense-copied-grown", "user-defined", "dense-value"}
+var repNames = []string{"dense", "sparse", "cocomp", "comp-dense", "induced", "dense-bytes", "induced-reversed", "induced-nested", "sparse-edited", "dense-edited", "induced-bighost", "sparse-copied-grown", "dense-copied-grown", "user-defined", "dense-value", "sparse-history", "dense-history"}
 
 // wellFormed checks the observers of any graph.Graph against each other and returns the graph read through IsEdge.
 func wellFormed(what string, gr graph.Graph) (*oracle.G, error) {
